@@ -90,12 +90,16 @@ Definition value_check (c : cfg) (v : option N) : bool :=
 Definition to_int (x : N) : Z :=
   if x <? 9223372036854775808 then Z.of_N x else (Z.of_N x - 18446744073709551616)%Z.
 
+(* Go's int arithmetic wraps silently (two's complement, 64 bits) *)
+Definition wrap64 (z : Z) : Z :=
+  ((z + 9223372036854775808) mod 18446744073709551616 - 9223372036854775808)%Z.
+
 (* specqbft.RoundRobinProposer; None = index out of range / division by zero (a Go panic) *)
 Definition proposer (c : cfg) (height round : N) : option N :=
   let n := Z.of_nat (length (committee c)) in
   if (n =? 0)%Z then None else
   let first := if height =? FIRST_HEIGHT then 0%Z else Z.rem (to_int height) n in
-  let idx := Z.rem (first + to_int round - 1)%Z n in
+  let idx := Z.rem (wrap64 (wrap64 (first + to_int round) - 1)) n in
   if (idx <? 0)%Z then None else nth_error (committee c) (Z.to_nat idx).
 
 (* ---- small list helpers ------------------------------------------------------------------------- *)
